@@ -13,6 +13,7 @@ from rules.registry import PROPERTIES  # noqa: E402
 repo = Repo(os.environ.get("VERIF_REPO", "/repo"))
 refs = {}
 seen = set()
+fn_skels = {}
 for p, spec in PROPERTIES.items():
     for entry in spec["rules"] + spec.get("thorough_rules", []):
         rule, kwargs = entry[0], (entry[2] if len(entry) > 2 else {})
@@ -22,7 +23,10 @@ for p, spec in PROPERTIES.items():
         seen.add(ck)
         for o in rule(repo, "ref", **kwargs):
             refs.setdefault(o.key, set()).add(o.skel)
+            if o.fn_skel is not None:
+                fn_skels[o.func] = o.fn_skel
 out = {k: sorted(v) for k, v in sorted(refs.items())}
+out["__functions__"] = fn_skels
 with open(os.path.join(ROOT, "rules", "reference_shapes.json"), "w") as f:
     json.dump(out, f, indent=0, sort_keys=True)
 print("reference shapes for %d obligation keys" % len(out))
